@@ -42,4 +42,25 @@ CLAIMED = {
                 "(mode/basis, unit) pairs per quantity.",
         "technique": "property-based testing: differential against a permanently converted clone + reference conversion model, python-filter and numpy.interp oracles, metamorphic relabelling",
     },
+    "C16": {
+        "text": "Hypothesis-generated increasing relative-pressure grids with non-decreasing volumes x 3 methods x pore / meniscus "
+                "geometries x built-in, zero and callable thickness models x generated adsorbate property sets and limits, through "
+                "the raw functions and psd_mesoporous: widths == 2(r_K+t) with an independently typed Kelvin equation, monotone, "
+                "zero-thickness volume conservation, distribution x width increments == volumes, cumulative end value and "
+                "running sum, single-step single peak.",
+        "note": "Open finding KF-C16-1 (hemicylindrical Kelvin radius exactly 4x the Kelvin equation; pinned by an existing test "
+                "table) excluded by a narrow predicate (ratio 4 within 1e-8) and counted; volumes with non-zero thickness are only "
+                "constrained through the distribution, cumulative and step clauses (as the property states).",
+        "technique": "property-based testing: generated isotherm branches against an independent Kelvin reference and volume-conservation identities",
+    },
+    "C19": {
+        "text": "Hypothesis-generated van 't Hoff families (Langmuir/Toth/DS-Langmuir, dH 5-60 kJ/mol, 2-5 temperatures in any "
+                "order, many common unit configurations) as model isotherms (exact recovery) and dense point isotherms "
+                "(independent interpolation + interpolation error bound); Whittaker closed form lambda + dH_vap + RT and the "
+                "omitted-loading set against CoolProp PropsSI for all 81 backend adsorbates; initial_enthalpy_point == first "
+                "enthalpy of the branch.",
+        "note": "Open finding KF-C19-2 (temperature-dependent loading representations compare different amounts) excluded by a "
+                "narrow predicate; CoolProp HEOS trusted; continuous parameters derived from a hypothesis-drawn integer seed.",
+        "technique": "property-based testing: synthetic-data parameter recovery with closed-form / PropsSI reference oracles",
+    },
 }
